@@ -51,3 +51,70 @@ bundle_arith = Contract(
     properties=("C02",), min_obligations=2, no_replay=True,
 )
 CONTRACTS = [bundle_arith, add_operation, next_id]
+
+# =================================================================================================
+# The scalar constructors of the IR builder (used BY CONTRACT in every K3 lowering proof): each appends exactly one node
+# carrying exactly the given operator / operands / value / output type / mode and returns a reference to THAT node on the
+# output type.  With these proved, "the IR builder's constructors" is no longer an assumption of the K3 contracts.
+# =================================================================================================
+_VR = ty.TUnion((ty.Int, ty.TObj("SignalRef", only=("SignalRef",))))
+
+
+def _ref_ok(res, n, t):
+    return And(isa(res, "SignalRef"), res.source_id is n.node_id, res.signal_type is t)
+
+
+def _const_post(a, res):
+    if len(ADDED) != 1:
+        return False
+    n = ADDED[0]
+    return And(isa(n, "IRConst"), n.value is a.value, n.output_type is a.signal_type, _ref_ok(res, n, a.signal_type))
+
+
+def _arith_post(a, res):
+    if len(ADDED) != 1:
+        return False
+    n = ADDED[0]
+    return And(isa(n, "IRArith"), n.op is a.op, n.left is a.left, n.right is a.right, n.output_type is a.output_type, _ref_ok(res, n, a.output_type))
+
+
+def _decider_post(a, res):
+    if len(ADDED) != 1:
+        return False
+    n = ADDED[0]
+    return And(isa(n, "IRDecider"), n.test_op is a.test_op, n.left is a.left, n.right is a.right, n.output_value is a.output_value,
+               n.copy_count_from_input is a.copy_count_from_input, n.output_type is a.output_type, len(n.conditions) == 0, _ref_ok(res, n, a.output_type))
+
+
+def _multi_post(a, res):
+    if len(ADDED) != 1:
+        return False
+    n = ADDED[0]
+    conds = a.conditions
+    if len(n.conditions) != len(conds):
+        return False
+    cs = [isa(n, "IRDecider"), n.output_value is a.output_value, n.copy_count_from_input is a.copy_count_from_input, n.output_type is a.output_type,
+          _ref_ok(res, n, a.output_type)]
+    for i, (row, (cmp_, l, r)) in enumerate(zip(n.conditions, conds)):
+        cs += [row.comparator is cmp_, row.first_operand is l, row.second_operand is r, row.compare_type == ("or" if i == 0 else a.combine_type)]
+    return And(*cs)
+
+
+_SELF_B = ty.TObj("IRBuilder", only=("IRBuilder",))
+_RESET = [("(reset)", lambda a: ADDED.clear() or True)]
+_U = {"IRBuilder.add_operation": add_operation, "IRBuilder.next_id": next_id}
+CONTRACTS += [
+    Contract(qualname=IRB + "const", params={"self": _SELF_B, "signal_type": ty.Str, "value": ty.Int, "source_ast": ty.TConcrete(None)}, requires=_RESET,
+             ensures=[("one IRConst with this value on this type; the reference points to it", _const_post)], uses=_U, properties=("C01", "C02", "C11"), min_obligations=1, no_replay=True),
+    Contract(qualname=IRB + "arithmetic", params={"self": _SELF_B, "op": ty.Str, "left": _VR, "right": _VR, "output_type": ty.Str, "source_ast": ty.TConcrete(None)}, requires=_RESET,
+             ensures=[("one IRArith with this operator and these operands on this type; the reference points to it", _arith_post)], uses=_U, properties=("C01", "C02"), min_obligations=1, no_replay=True),
+    Contract(qualname=IRB + "decider", params={"self": _SELF_B, "test_op": ty.Str, "left": _VR, "right": _VR, "output_value": _VR, "output_type": ty.Str,
+                                               "source_ast": ty.TConcrete(None), "copy_count_from_input": ty.Bool}, requires=_RESET,
+             ensures=[("one single-condition IRDecider with this comparison, output value and mode on this type; the reference points to it", _decider_post)],
+             uses=_U, properties=("C01", "C02"), min_obligations=1, no_replay=True),
+    Contract(qualname=IRB + "decider_multi",
+             params={"self": _SELF_B, "conditions": ty.TTuple((ty.TTuple((ty.Str, _VR, _VR)), ty.TTuple((ty.Str, _VR, _VR)), ty.TTuple((ty.Str, _VR, _VR)))),
+                     "combine_type": ty.Str, "output_value": _VR, "output_type": ty.Str, "source_ast": ty.TConcrete(None), "copy_count_from_input": ty.Bool}, requires=_RESET,
+             ensures=[("one IRDecider with one row per tuple, in order, rows after the first combined with combine_type", _multi_post)],
+             uses=_U, properties=("C01",), min_obligations=1, no_replay=True, note="three rows (bounded list length)"),
+]
